@@ -2,7 +2,9 @@ package processor
 
 import (
 	"context"
+	"encoding/json"
 	"errors"
+	"io"
 	"time"
 
 	"github.com/KafScale/platform/addons/processors/iceberg-processor/internal/checkpoint"
@@ -10,6 +12,7 @@ import (
 	"github.com/KafScale/platform/addons/processors/iceberg-processor/internal/decoder"
 	"github.com/KafScale/platform/addons/processors/iceberg-processor/internal/discovery"
 	"github.com/KafScale/platform/addons/processors/iceberg-processor/internal/sink"
+	"github.com/KafScale/platform/pkg/lfs"
 	"github.com/prometheus/client_golang/prometheus"
 )
 
@@ -183,6 +186,22 @@ func (s vsymC33Observed) CommitOffset(ctx context.Context, st checkpoint.OffsetS
 	return s.Store.CommitOffset(ctx, st)
 }
 
+// BEGIN iceberg-only
+// vsymC33Blobs is the LFS object store: a fetch may fail transiently
+type vsymC33Blobs struct{ w *vsymC33World }
+
+func (b vsymC33Blobs) Fetch(ctx context.Context, key string) ([]byte, error) {
+	if b.w.fault("lfs") {
+		return nil, errVsymTransient
+	}
+	return []byte("blob:" + key), nil
+}
+func (b vsymC33Blobs) Stream(ctx context.Context, key string) (io.ReadCloser, int64, error) {
+	return nil, 0, errors.New("vsym: streaming not modelled")
+}
+
+// END iceberg-only
+
 type vsymC33Counter struct{ prometheus.Counter }
 
 func (vsymC33Counter) Inc()        {}
@@ -277,6 +296,38 @@ func VsymC33_IcebergFaults() {
 	p := &Processor{cfg: cfg, discover: vsymC33Lister{w}, decode: vsymC33Decoder{w}, store: vsymC33Store{w}, sink: vsymC33Sink{w}, mappingByTopic: map[string]config.Mapping{}}
 	vsymC33Drive(w, p, vsym_Param("cycles"))
 }
+
+// BEGIN iceberg-only
+// VsymC33_IcebergLfs: topic t is mapped with lfs mode "resolve"; the second record of every
+// segment of partition 0 is an LFS envelope whose blob fetch may fail transiently.
+func VsymC33_IcebergLfs() {
+	w := newVsymC33World(vsym_Param("segments"))
+	w.budget = vsym_Param("faults")
+	envelopes := map[string]bool{}
+	for key, recs := range w.recs {
+		if len(recs) < 2 || recs[1].Partition != 0 {
+			continue
+		}
+		env, err := json.Marshal(lfs.Envelope{Version: 1, Bucket: "b", Key: "obj-" + key, SHA256: "00", Size: 4})
+		vsym_Assert(err == nil, "C33/setup-envelope")
+		recs[1].Value = env
+		envelopes[string(env)] = true
+	}
+	if vsym_Symbolic() {
+		// (encoding/json is the engine's abstract codec: the envelope bytes are an opaque token,
+		// so the textual marker test is answered for the values this harness made)
+		vsym_Override("github.com/KafScale/platform/pkg/lfs.IsLfsEnvelope", func(value []byte) bool { return envelopes[string(value)] })
+	}
+	off := false
+	cfg := config.Config{}
+	cfg.Processor.PollIntervalSeconds = 1
+	m := config.Mapping{Topic: "t"}
+	m.Lfs.Mode, m.Lfs.ValidateChecksum, m.Lfs.ResolveConcurrency = "resolve", &off, 1
+	p := &Processor{cfg: cfg, discover: vsymC33Lister{w}, decode: vsymC33Decoder{w}, store: vsymC33Store{w}, sink: vsymC33Sink{w}, lfsS3: vsymC33Blobs{w}, mappingByTopic: map[string]config.Mapping{"t": m}}
+	vsymC33Drive(w, p, vsym_Param("cycles"))
+}
+
+// END iceberg-only
 
 // VsymC33_IcebergNoBackend: the store the processor is built with when no offsets backend is
 // configured (checkpoint.New), no failures: the partition's first record must still be written.
